@@ -100,7 +100,7 @@ fn remove_erased<T: 'static>(op: usize, how: usize, drop: bool) {
         let fate = if how == SINK_DROP { 1 } else { 2 };
         kani::assert(len2 == post::remove_len(len), "removal: len' == len - 1");
         kani::assert(g().total_destroyed == if how == SINK_DROP && drop { 1 } else { 0 }, "removal: destroys exactly the dropped handle's value");
-        kani::assert(g().out_count == if how == SINK_DROP { 0 } else { 1 }, "removal: moves out exactly the consumed value");
+        kani::assert(g().out_count == if how == SINK_DROP || esz == 0 { 0 } else { 1 }, "removal: moves out exactly the consumed value");
         if esz != 0 {
             let (kind, pos) = if op == OP_REMOVE {
                 (post::remove_old_kind(len, index, w, fate), if w == index { 0 } else { post::remove_old_pos(len, index, w) })
